@@ -1,8 +1,9 @@
 import Umya.Driver.Proto
 import Umya.Model.CoordCanon
+import Umya.Model.CoordCanonMore
 namespace Umya.Driver.C17
 open Umya.Coord Umya.Proto Umya.Dec
-open Umya.Annot (canonAreaB nameTextAnyB Address DefName undouble)
+open Umya.Annot (canonAreaB canonAddrB nameTextAnyB Address DefName undouble)
 
 def refStr : Option Ref → String
   | some r => s!"{r.num}/{if r.lock then 1 else 0}"
@@ -95,6 +96,11 @@ def handle (args : List String) : String :=
   | ["pp", "area", h] =>
     match decodeStr h with
     | some s => s!"{bit (canonAreaB s)} {resStr (fun (a : Address) => encodeStr a.text) (Address.parse (undouble s))}"
+    | none => "bad-op"
+  | ["pp", "total", h] =>
+    -- `C17_address_canon_total`: the reply leads with the theorem's decidable hypothesis `canonAddrB`
+    match decodeStr h with
+    | some s => s!"{bit (canonAddrB s)} {resStr (fun (a : Address) => encodeStr a.text) (Address.parse (undouble s))}"
     | none => "bad-op"
   | ["pp", "name", h, g] =>
     match decodeStr h with
